@@ -1,6 +1,8 @@
 import Lattigo.Props.C01Words
 import Lattigo.Props.C01NTT
 import Lattigo.Props.C01Ring
+import Lattigo.Props.C01Tie
+import Lattigo.Props.C01Aut
 /-!
 # C01 — RNS ring arithmetic equals exact arithmetic in Z_Q[X]/(X^N+1)
 
@@ -13,5 +15,11 @@ Property theorems live in
   scheme-level models of C03/C04/C14/C16/C20 are executed on) IS the commutative ring
   Π_i Z_{q_i}[X]/(X^N+1), and the word-level NTT/Montgomery kernels implement its operations
   (`refine_mul`, `words_ring`, `words_poly_ring`).
+* `Lattigo.Props.C01Tie` — the hand-written wrapper table `Vec.op` agrees with the SubRing wrappers
+  REGENERATED from ring/subring_ops.go (`vecOp_table`); the unrolled kernel loop, executed
+  sequentially under any aliasing of its slices, is the pointwise map of the kernel's lane
+  (`kernel_loop_spec`, `kernel_loop_map3`).
+* `Lattigo.Props.C01Aut` — closed form of the REGENERATED `AutomorphismNTTIndex` (`autIndex_spec`),
+  `NTT(σ_g a) = NTT(a) ∘ index` (`autNTT_spec`), `σ_g σ_h = σ_{gh}` (`aut_comp`).
 This module collects them so that `lake build Lattigo.Props.C01` checks all of C01.
 -/
